@@ -313,28 +313,9 @@ def monitor(world, sc):
     return ("quiescent" if v == "blocked" else "finished"), probs
 
 
-def continue_raised(world):
-    """A worker executed send_continue and a send() inside it failed with an errno that the
-    dispatcher re-raises (neither EWOULDBLOCK nor a disconnect): service() was aborted."""
-    ev = world.sched.events
-    for i, (th, k, _) in enumerate(ev):
-        if k == "send_continue" and th != "io":
-            for th2, k2, d2 in ev[i + 1:]:
-                if th2 != th:
-                    continue
-                if k2 == "service_end":
-                    break
-                if k2 == "send_result" and d2 == "e":
-                    return True
-    return False
-
-
 def classify(sc, world, cls, probs):
-    """Known-finding class of a failing run (decidable on the trace), or None."""
-    if not probs:
-        return None
-    if continue_raised(world):
-        return "kf_c05_continue_raises"
+    """Known-finding class of a failing run: none is open any more (every class this check
+    found has been repaired in /repo), so every failing run is a violation."""
     return None
 
 
@@ -713,7 +694,8 @@ EXPECTED_SHAPE = {
     'channel.py:HTTPChannel.send_continue': (
         '{ R:request v:len v:outbuf_payload R:outbuf_lock with { R:outbufs m:append v:outbuf_payload call:app'
         'end() v:num_bytes R:current_outbuf_count W:current_outbuf_count v:num_bytes R:total_outbufs_len W:to'
-        'tal_outbufs_len W:sent_continue m:_flush_some v:do_close call:_flush_some(do_close=do_close) } }'
+        'tal_outbufs_len W:sent_continue m:_flush_exception m:_flush_some v:do_close call:_flush_exception(do'
+        '_close=do_close) } }'
     ),
     'channel.py:HTTPChannel.received': (
         '{ if not v:data { return } R:requests_lock with { if or( R:will_close , R:close_when_flushed , ) { r'
@@ -761,17 +743,17 @@ EXPECTED_SHAPE = {
     'channel.py:HTTPChannel.service': (
         '{ R:requests if v:request { v:request } else { v:request } try { if and( R:connected , not R:will_cl'
         'ose , ) { v:task m:service call:service() } else { v:task } } except:ClientDisconnected { v:task R:r'
-        'equest v:task } except:Exception { v:task R:request if not v:task { if { v:traceback } else { } v:re'
-        'quest v:request v:InternalServerError v:body v:err_request v:req_version v:err_request try { v:req_h'
-        'eaders v:err_request } except:KeyError { } v:err_request try { v:task m:service call:service() } exc'
-        'ept:ClientDisconnected { v:task } } else { v:task } } if v:task { R:requests_lock with { W:close_whe'
-        'n_flushed for R:requests { v:request m:close call:close() } W:requests } } else { if v:len R:request'
-        's cmp:Gt:1 { m:_flush_outbufs_below_high_watermark call:_flush_outbufs_below_high_watermark() } if R'
-        ':current_outbuf_count cmp:Gt:0 { W:current_outbuf_count } v:request m:close call:close() R:requests_'
-        'lock with { R:requests m:pop call:pop() if and( R:connected , R:requests , ) { m:add_task call:add_t'
-        'ask() } else { if and( R:connected , R:request cmp:IsNot:None , R:request , R:request , not R:sent_c'
-        'ontinue , ) { m:send_continue call:send_continue(do_close=False) } } } } if R:connected { m:pull_tri'
-        'gger call:pull_trigger() } v:time }'
+        'equest v:task } except:BaseException { v:task R:request if not v:task { if { v:traceback } else { } '
+        'v:request v:request v:InternalServerError v:body v:err_request v:req_version v:err_request try { v:r'
+        'eq_headers v:err_request } except:KeyError { } v:err_request try { v:task m:service call:service() }'
+        ' except:ClientDisconnected { v:task } } else { v:task } } if v:task { R:requests_lock with { W:close'
+        '_when_flushed for R:requests { v:request m:close call:close() } W:requests } } else { if v:len R:req'
+        'uests cmp:Gt:1 { m:_flush_outbufs_below_high_watermark call:_flush_outbufs_below_high_watermark() } '
+        'if R:current_outbuf_count cmp:Gt:0 { W:current_outbuf_count } v:request m:close call:close() R:reque'
+        'sts_lock with { R:requests m:pop call:pop() if and( R:connected , R:requests , ) { m:add_task call:a'
+        'dd_task() } else { if and( R:connected , R:request cmp:IsNot:None , R:request , R:request , not R:se'
+        'nt_continue , ) { m:send_continue call:send_continue(do_close=False) } } } } if R:connected { m:pull'
+        '_trigger call:pull_trigger() } v:time }'
     ),
     'task.py:ThreadedTaskDispatcher.handler_thread': (
         '{ while { R:lock with { while and( not R:queue , R:stop_count cmp:Eq:0 , ) { R:queue_cv m:wait call:'
